@@ -23,16 +23,25 @@ import (
 //	add <stream> <feed>...    h.Add        <- agg.Rule{stream, feeds}
 //	del <stream>              h.Delete     <- stream               ("deleteAll" is the reserved id)
 //	bc <topic> <sender>       h.Broadcast  <- message tagged (topic, seq) from a sender called <sender>
+//	stall <name> <topic> <k>  client(name,topic) stops draining its Send channel with <k> (one or two decimal digits) free buffer slots left:
+//	                          the harness fills the buffer with aggBuf-k filler messages. A forwarder that then executes
+//	                          `c.Send <- msg` blocks (goroutine state "chan send"); the inner hub's own non-blocking send drops.
+//	                          No-op on a client that is already stalled.
+//	unstall <name> <topic>    the client drains again: fillers are thrown away, the real messages that were buffered or held by
+//	                          blocked forwarders are reported like deliveries. No-op on a client that is not stalled.
 //	st                        dump of the hub's tables at quiescence (exported fields, read only):
 //	                          rules=<stream>=<feed>+<feed>,.. regs=<name>@<topic>,.. subs=<name>@<topic>:<#sub-subscriptions>,..
 //	                          inner=<topic>:<#clients registered at the inner hub>,..
 //
 // After the hub loop has taken the op from its unbuffered channel the harness waits for QUIESCENCE:
 // a stop-the-world goroutine dump (runtime.Stack) in which the agg loop, the inner hub loop and every
-// forwarder goroutine (agg.(*SubClient).RelayTo) is parked in its `select`. That is a state, not a
-// delay: once it holds nothing is in flight and every forwarder is ready to take the next message,
-// so the inner hub's non-blocking send cannot drop for "forwarder busy" reasons (drops under load are
-// outside the model). Then every subscriber channel is drained; the output line is
+// forwarder goroutine (agg.(*SubClient).RelayTo) is parked in its `select` — or, while some client is
+// stalled, parked in `chan send` (blocked on the full Send channel of a stalled client; a send to a
+// draining client never parks, its buffer is emptied after every op). That is a state, not a
+// delay: once it holds nothing is in flight and every forwarder not blocked on a stalled client is ready
+// to take the next message, so the inner hub's non-blocking send cannot drop for "forwarder busy"
+// reasons (drops under load are outside the model). Then the channel of every draining subscriber is
+// emptied; the output line is
 //
 //	ok [<name>@<topic>:<tag>*<count>,...]      (sorted; tag = <hexfeed>#<seq>)
 //	panic <kind>                               the hub goroutine panicked (recover wrapper; arg "die": no wrapper)
@@ -49,6 +58,8 @@ type aggCase struct {
 	clients map[string]*hub.Client
 	keys    []string
 	seq     int
+	stalled map[string]bool           // client key -> not draining (buffer filled up by the harness)
+	carry   map[string]map[string]int // client key -> tag -> count, taken out by unstall, reported by the next drain
 }
 
 const aggBuf = 4096
@@ -129,9 +140,10 @@ var aggBlocked = map[string]bool{"select": true, "chan send": true, "chan receiv
 	"chan send (nil chan)": true, "chan receive (nil chan)": true, "semacquire": true, "sync.Mutex.Lock": true,
 	"sync.RWMutex.Lock": true, "sync.RWMutex.RLock": true, "sync.WaitGroup.Wait": true, "sync.Cond.Wait": true}
 
-// quiesce waits until the hub loops and all forwarders are parked in select (or the hub died).
-// A hang is recognised by state as well: every goroutine of the hub is blocked, not all of them in
-// their select, in 5 consecutive snapshots 1 ms apart (nobody is left who could unblock them);
+// quiesce waits until the hub loops are parked in select and every forwarder is parked in select or (only
+// while a client is stalled) in chan send, or the hub died.
+// A hang is recognised by state as well: every goroutine of the hub is blocked, and that is not the
+// quiescent state, in 5 consecutive snapshots 1 ms apart (nobody is left who could unblock them);
 // 5 s of wall clock without quiescence is the fallback.
 func (a *aggCase) quiesce() string {
 	deadline := time.Now().Add(5 * time.Second)
@@ -147,7 +159,7 @@ func (a *aggCase) quiesce() string {
 		ok, allBlocked := true, true
 		nAgg, nInner := 0, 0
 		for _, g := range gs {
-			if g.state != "select" {
+			if g.state != "select" && !(g.kind == "fwd" && g.state == "chan send" && len(a.stalled) > 0) {
 				ok = false
 			}
 			if !aggBlocked[g.state] {
@@ -187,7 +199,7 @@ func (a *aggCase) quiesce() string {
 
 func newAggCase(wrap, stats bool) *aggCase {
 	a := &aggCase{h: agg.New(), closed: make(chan struct{}), dead: make(chan string, 1), done: make(chan struct{}),
-		clients: map[string]*hub.Client{}}
+		clients: map[string]*hub.Client{}, stalled: map[string]bool{}, carry: map[string]map[string]int{}}
 	go func() {
 		defer close(a.done)
 		if wrap {
@@ -209,8 +221,11 @@ func newAggCase(wrap, stats bool) *aggCase {
 
 // teardown ends the case's goroutines so that the next case starts from an empty process:
 // the loops end on `closed`; forwarders still alive are all registered at the inner hub, and end when
-// their (private, unbuffered) Send channel is closed.
+// their (private, unbuffered) Send channel is closed. Forwarders blocked on a stalled client are
+// released first (every client drains again).
 func (a *aggCase) teardown() {
+	a.stalled = map[string]bool{}
+	a.drain()
 	close(a.closed)
 	select {
 	case <-a.done:
@@ -249,6 +264,7 @@ func (a *aggCase) teardown() {
 		if loops == 0 && fwd == 0 {
 			return
 		}
+		a.drain()
 		time.Sleep(50 * time.Microsecond)
 	}
 }
@@ -264,21 +280,38 @@ func (a *aggCase) client(name, topic string) *hub.Client {
 	return c
 }
 
-// drain collects what every subscriber got since the last drain
+// take empties the Send channel of one client (non-blocking receives until it is empty: a receive from a
+// full channel with parked senders moves the first parked sender's message into the buffer and makes that
+// sender runnable, atomically, so the loop also collects what blocked forwarders were holding).
+// Filler messages (no data) are thrown away.
+func aggTake(c *hub.Client, cnt map[string]int) {
+	for {
+		select {
+		case m := <-c.Send:
+			if len(m.Data) > 0 {
+				cnt[string(m.Data)]++
+			}
+			continue
+		default:
+		}
+		return
+	}
+}
+
+// drain collects what every draining subscriber got since the last drain
 func (a *aggCase) drain() string {
 	var ents []string
 	for _, k := range a.keys {
-		c := a.clients[k]
-		cnt := map[string]int{}
-		for {
-			select {
-			case m := <-c.Send:
-				cnt[string(m.Data)]++
-				continue
-			default:
-			}
-			break
+		if a.stalled[k] {
+			continue
 		}
+		c := a.clients[k]
+		cnt := a.carry[k]
+		delete(a.carry, k)
+		if cnt == nil {
+			cnt = map[string]int{}
+		}
+		aggTake(c, cnt)
 		for tag, n := range cnt {
 			ents = append(ents, fmt.Sprintf("%s@%s:%s*%d", enhex(c.Name), enhex(c.Topic), tag, n))
 		}
@@ -288,6 +321,53 @@ func (a *aggCase) drain() string {
 		return "ok"
 	}
 	return "ok " + strings.Join(ents, ",")
+}
+
+// stall: the client stops reading with k free slots left in its buffer (which is empty now: it was
+// drained after the previous op and nothing is in flight at quiescence)
+func (a *aggCase) stall(name, topic string, k int) string {
+	if a.isDead {
+		return "dead"
+	}
+	if a.isStuck {
+		return "stuck"
+	}
+	c := a.client(name, topic)
+	key := name + "\x00" + topic
+	if a.stalled[key] {
+		return "ok"
+	}
+	for i := 0; i < aggBuf-k; i++ {
+		select {
+		case c.Send <- hub.Message{}:
+		default:
+			return "harness-error buffer-not-empty"
+		}
+	}
+	a.stalled[key] = true
+	return "ok"
+}
+
+// unstall: the client reads again; blocked forwarders are released, then the usual quiescence + drain
+func (a *aggCase) unstall(name, topic string) string {
+	if a.isDead {
+		return "dead"
+	}
+	if a.isStuck {
+		return "stuck"
+	}
+	c := a.client(name, topic)
+	key := name + "\x00" + topic
+	if a.stalled[key] {
+		delete(a.stalled, key)
+		cnt := map[string]int{}
+		aggTake(c, cnt)
+		a.carry[key] = cnt
+	}
+	if r := a.quiesce(); r != "" {
+		return r
+	}
+	return a.drain()
 }
 
 func (a *aggCase) do(send func(abort <-chan time.Time) bool) string {
@@ -363,6 +443,21 @@ func (a *aggCase) step(fs []string) string {
 		}
 		return a.dump()
 	}
+	if len(fs) == 4 && fs[0] == "stall" {
+		n, ok1 := aggUnhex(fs[1])
+		t, ok2 := aggUnhex(fs[2])
+		k, ok3 := 0, len(fs[3]) == 1 || len(fs[3]) == 2
+		for _, ch := range fs[3] {
+			if ch < '0' || ch > '9' {
+				ok3 = false
+			}
+			k = k*10 + int(ch-'0')
+		}
+		if !ok1 || !ok2 || !ok3 {
+			return "bad-op"
+		}
+		return a.stall(n, t, k)
+	}
 	args := make([]string, 0, len(fs))
 	for _, f := range fs[1:] {
 		v, ok := aggUnhex(f)
@@ -416,6 +511,8 @@ func (a *aggCase) step(fs []string) string {
 			}
 			return false
 		})
+	case fs[0] == "unstall" && len(args) == 2:
+		return a.unstall(args[0], args[1])
 	case fs[0] == "bc" && len(args) == 2:
 		if a.isDead {
 			return "dead"
